@@ -9,10 +9,33 @@ let () = iter_lines (fun line ->
   | "pack" :: h :: _ ->
     print_endline (match pack_bytes (bytes_of_hex h) with Some l -> "ok " ^ hex_of_bytes l | None -> "panic")
   | "unpack" :: h :: _ -> print_endline (show (unpack (bytes_of_hex h)))
+  (* Unpack appends to dst: the appended part is unpack's output whatever dst's spare capacity held *)
+  | "unpackdirty" :: h :: _ -> print_endline (show (unpack (bytes_of_hex h)))
   | "unpack_prefix" :: h :: _ -> print_endline (show (unpack_prefix (bytes_of_hex h)))
   | "spec" :: h :: _ -> print_endline (show (spec_unpack (bytes_of_hex h)))
   (* the streaming reader: by theorem C13_stream_agrees its verdict and output are those of
      [unpack] for every oracle, so the expected result is computed with [unpack] *)
-  | ("stream" | "streamword") :: h :: _ -> print_endline (show (unpack (bytes_of_hex h)))
+  | ("stream" | "streamword" | "streamfull") :: h :: _ -> print_endline (show (unpack (bytes_of_hex h)))
+  (* NewPackedEncoder packs the segment table and every segment separately (Encoder.writePacked):
+     the concatenation of the packed pieces *)
+  | "encpacked" :: pieces ->
+    let rec go acc = function
+      | [] -> Some acc
+      | h :: r -> (match pack_bytes (bytes_of_hex h) with Some l -> go (acc @ l) r | None -> None) in
+    print_endline (match go [] pieces with Some l -> "ok " ^ hex_of_bytes l | None -> "panic")
+  (* MarshalPacked packs the whole frame at once *)
+  | "marshalpacked" :: h :: _ ->
+    print_endline (match pack_bytes (bytes_of_hex h) with Some l -> "ok " ^ hex_of_bytes l | None -> "panic")
+  (* a packed stream of frames through the Decoder: acceptable iff the one-shot decoder accepts it
+     and its output ends on a frame boundary (cumulative unpacked frame lengths are given) *)
+  | "decpacked" :: h :: lens :: _ ->
+    let ls = List.map int_of_string (String.split_on_char ',' lens) in
+    print_endline (match unpack (bytes_of_hex h) with
+      | None -> "rej"
+      | Some out ->
+        let n = List.length out in
+        if n = 0 then "acc 0" else
+        let rec find k = function [] -> "rej" | l :: r -> if l = n then Printf.sprintf "acc %d" k else find (k + 1) r in
+        find 1 ls)
   | [] -> ()
   | _ -> print_endline "bad-case")
